@@ -2,7 +2,7 @@
 # developer helper: run harness(es) from /verif/kani on a scratch copy of /repo with regular output (not used by checks)
 # usage: kx.sh <cfg: debug|release> <harness>... ; env KX_FILTER=cat to see all
 cfg=$1; shift
-S=/tmp/kx; mkdir -p $S; rm -rf $S/repo $S/kani; rsync -a --exclude target --exclude .git /repo/ $S/repo/; mkdir -p $S/kani
+S=/tmp/kx-$$; mkdir -p $S; trap "rm -rf $S" EXIT; rsync -a --exclude target --exclude .git /repo/ $S/repo/; mkdir -p $S/kani
 cp /verif/kani/*.rs $S/kani/; echo 'pub(crate) const THOROUGH: bool = false;' > $S/kani/tier.rs
 for f in /verif/kani/*.rs; do
   inj=$(grep -m1 '^// @inject' $f | awk '{print $3}'); mod=$(grep -m1 '^// @inject' $f | awk '{print $5}'); [ -z "$mod" ] && mod=verif_kani
@@ -12,4 +12,4 @@ done
 H=""; for h in "$@"; do H="$H --harness $h"; done
 cd $S/repo
 if [ "$cfg" = release ]; then export RUSTFLAGS="-C debug-assertions=off"; fi
-CARGO_TARGET_DIR=$S/target-$cfg CARGO_NET_OFFLINE=true timeout ${KX_TIMEOUT:-900} cargo kani --lib -Z stubbing -Z function-contracts -Z unstable-options --harness-timeout ${KX_HT:-600}s $H 2>&1 | ${KX_FILTER:-grep -E "^error|Status: (FAILURE|UNSATISFIABLE|UNREACHABLE|UNDETERMINED)|SUMMARY|\*\*|Failed Checks|VERIFICATION|Verification Time|Checking harness" -B2 -A3}
+CARGO_TARGET_DIR=/tmp/kx-target-$cfg CARGO_NET_OFFLINE=true timeout ${KX_TIMEOUT:-900} cargo kani --lib -Z stubbing -Z function-contracts -Z unstable-options --harness-timeout ${KX_HT:-600}s $H 2>&1 | ${KX_FILTER:-grep -E "^error|Status: (FAILURE|UNSATISFIABLE|UNREACHABLE|UNDETERMINED)|SUMMARY|\*\*|Failed Checks|VERIFICATION|Verification Time|Checking harness" -B2 -A3}
